@@ -28,6 +28,8 @@ def run(rep):
     rep.add_tlc(res, "Scat (backward bookkeeping)")
     design_check(rep, res, "Scat")
     scatchecks.backward_checks(rep, fnd, "C09", rep.tier)
+    from .. import scatgrad
+    scatgrad.checks(rep, "C09", rep.tier, "gradient")   # chain rule over ScatGrad.tla's terms: every coordinate; the real forward arbitrates
     from .. import autogradchecks
     autogradchecks.regimes(rep, "C09", autogradchecks.scat_cases(), "C09: two calls before one backward, second backward")
     hs = autogradchecks.tape_histories(rep, rep.tier)
